@@ -109,6 +109,10 @@ type LSpec struct {
 	// its declarations (the file was produced from a template elsewhere); positions reported
 	// through the directive must not move the output.
 	LineDirectives map[string]string `json:"line_directives,omitempty"`
+	// ForeignHeader: declaring file (dir/file) → true: the file starts with another
+	// generator's `// Code generated ... DO NOT EDIT.` line (converters declared in code that
+	// protoc, stringer, ... emitted are selected like any other).
+	ForeignHeader map[string]bool `json:"foreign_header,omitempty"`
 	// DirLinks: directory symbolic links inside the module (link → existing target directory);
 	// an output path that goes through a link is the file under the target.
 	DirLinks map[string]string `json:"dir_links,omitempty"`
@@ -275,6 +279,9 @@ func (s *LSpec) render() map[string]string {
 		convs := byFile[key]
 		dir := convs[0].Dir
 		var b strings.Builder
+		if s.ForeignHeader[key] {
+			b.WriteString("// Code generated by protoc-gen-go. DO NOT EDIT.\n// source: api.proto\n\n")
+		}
 		if ld, ok := s.LineDirectives[key]; ok && strings.HasPrefix(ld, "^") {
 			// a directive on the very first line, before the package clause (goyacc style)
 			fmt.Fprintf(&b, "//line %s:1\n", strings.TrimPrefix(ld, "^"))
